@@ -36,6 +36,7 @@ SIG = {
     'scale_key': 'C14:explicit_scale_key_unusable',
     'scale_tuning': 'C14:scale_discards_tuning_octave_ratio',
     'pdelta_input': 'C14:pdelta_stale_input_event',
+    'pchain_return': 'C14:pchain_returns_transformed_event',
 }
 HEADER = ('From Coq Require Import ZArith QArith List Bool String. Import ListNotations.\n'
           'Require Import SC3.lib.PyNum SC3.model.TaskQ SC3.model.Event.\nOpen Scope string_scope. Open Scope list_scope.\n')
@@ -90,6 +91,8 @@ def ppat(t):
     if k == 'par': return '(PPar [%s])' % '; '.join(ppat(x) for x in t[1])
     if k == 'delta': return '(PDelta %s %s)' % (pval(t[1]), ppat(t[2]))
     if k == 'dur': return '(PDur %s %s)' % (pnum(t[1]), ppat(t[2]))
+    if k == 'seq': return '(PSeq [%s] %d%%nat %s)' % ('; '.join(ppat(x) for x in t[1]), t[2], cz(t[3]))
+    if k == 'pn': return '(PN %s %d%%nat)' % (ppat(t[1]), t[2])
     raise ValueError(t)
 
 
@@ -342,7 +345,27 @@ def gen_pat(rng, depth, st):
             st['mono_used'] = True
             return ['mono', rng.choice(['c14a', 'c14b', 'c14c']), gen_kvs(rng, mono=True)]
         return ['bind', gen_kvs(rng)]
-    if r < 0.55:
+    if r < 0.42:
+        # one event pattern after the other (Pseq of event patterns, Pn): what a pattern RETURNS when it ends is the
+        # input event of the next one, which starts inside the same pull
+        st2 = dict(st, in_par=True)
+
+        def item():
+            # items that end in the middle of a pull are the interesting ones: a Pdur that cuts, a Pchain one of whose
+            # streams ends first, a Ppar
+            x = rng.random()
+            if x < 0.25:
+                return ['dur', rng.choice([F('3/2'), F(1), I(2), F('5/4')]), ['bind', gen_kvs(rng, infinite=rng.random() < 0.5)]]
+            if x < 0.5:
+                return ['chain', [['bind', gen_kvs(rng, rests=False)], ['bind', gen_kvs(rng)]]]
+            return gen_pat(rng, depth - 1, st2)
+        if rng.random() < 0.3:
+            out = ['pn', item(), rng.randint(1, 3)]
+        else:
+            out = ['seq', [item() for _ in range(rng.randint(1, 3))], rng.randint(1, 2), rng.randint(-1, 3)]
+        st['mono_used'] = st['mono_used'] or st2['mono_used']
+        return out
+    if r < 0.6:
         st2 = dict(st, in_par=True)
         out = ['par', [gen_pat(rng, depth - 1, st2) for _ in range(rng.choice([0, 1, 1, 2, 2, 2, 3, 3, 4]))]]
         st['mono_used'] = st['mono_used'] or st2['mono_used']
@@ -372,8 +395,9 @@ def force_legato(t):
             kvs.append(['legato', ['rep', F('1/2')]])
     if t[0] == 'bind': fix(t[1])
     elif t[0] == 'mono': fix(t[2])
-    elif t[0] in ('chain', 'par'):
+    elif t[0] in ('chain', 'par', 'seq'):
         for c in t[1]: force_legato(c)
+    elif t[0] == 'pn': force_legato(t[1])
     else: force_legato(t[2])
 
 
@@ -490,6 +514,8 @@ def battery():
         (SIG['pdur_int'], pc(['dur', F('3/2'), ['mono', 'c14b', [['delta', ['seq', [I(1), I(1)]]]]]])),
         (SIG['pdelta_input'], pc(['chain', [['delta', F('1/2'), bind(dur=[F(1), F(1), F(1)])],
                                             ['bind', [['pan', ['seq', [I(1), I(2), I(3), I(4)]]]]]]])),
+        (SIG['pchain_return'], pc(['seq', [['chain', [bind(dur=[F(1)]), ['bind', [['pan', ['seq', [I(1), I(2), I(3)]]]]]]],
+                                            bind(dur=[F('1/2'), F('1/2')])], 1, 0])),
         (SIG['scale_key'], kc({'degree': I(2)}, minor)),
         (SIG['scale_tuning'], {'kind': 'scale', 'scale': wide}),
         (SIG['scale_tuning'], kc({'degree': I(4)}, wide)),
@@ -552,8 +578,10 @@ def tables_ok(res):
 
 def count_tree(c, t):
     c.count('pattern:' + t[0])
-    if t[0] in ('chain', 'par'):
+    if t[0] in ('chain', 'par', 'seq'):
         for x in t[1]: count_tree(c, x)
+    elif t[0] == 'pn':
+        count_tree(c, t[1])
     elif t[0] in ('delta', 'dur'):
         count_tree(c, t[2])
 
@@ -803,7 +831,8 @@ def search(ctx, failures):
     return found
 
 
-THEOREM_OF = {SIG['pdelta_input']: 'streams share no state with their inputs (Pchain feeds every pattern its current input)',
+THEOREM_OF = {SIG['pchain_return']: 'a pattern that ends hands the event it was sent, unchanged, to the pattern embedded next',
+              SIG['pdelta_input']: 'streams share no state with their inputs (Pchain feeds every pattern its current input)',
               SIG['rest']: 'player_times', SIG['pdur_dict']: 'pdur_total_duration', SIG['pdur_int']: 'pdur_total_duration',
               SIG['scale_key']: 'explicit_key_precedence', SIG['scale_tuning']: 'pitch_chain'}
 HOW = ('harness/impl/c14_run.py builds the pattern/event with the real classes (sc3.init("nrt")), registers SynthDefs c14a '
